@@ -3,7 +3,10 @@
 (* C17: static pages mirror the page directory.                            *)
 (*                                                                         *)
 (* A page directory (two levels deep: root and one sub-directory `sub`,    *)
-(* plus asset directories) is described by a record of features.  Ref      *)
+(* plus asset directories) is described by a record of features (among    *)
+(* them: a sub-directory of `sub` named like a directory the root page     *)
+(* copies verbatim - copy_subdir is local to its page - and a copy_subdir  *)
+(* list whose first entry does not exist - it costs a warning only).  Ref  *)
 (* (user guide "Static pages", DESIGN.md B.11) gives the set of pages with *)
 (* their paths, the order of the root's sub-pages, the files copied next   *)
 (* to their pages and the directories copied verbatim.  Impl is the walk   *)
@@ -27,16 +30,18 @@ Choose ==
   /\ phase = "init"
   /\ \E a \in Md, b \in Md, txt \in BOOLEAN, hid \in BOOLEAN, bak \in BOOLEAN, ord \in Orders,
         sub \in {0, 1, 2}, c \in Md, stxt \in BOOLEAN, assets \in BOOLEAN, rootcopy \in BOOLEAN,
-        assets2 \in BOOLEAN, subcopy \in BOOLEAN :
+        assets2 \in BOOLEAN, subcopy \in BOOLEAN, subassets \in BOOLEAN, missfirst \in BOOLEAN :
        /\ (ord = "ba") => (a # 0 /\ b # 0)           \* ordered_subpage names existing entries only
        /\ (ord = "b_only") => b # 0
        /\ (ord = "sub_first") => sub # 0
        /\ (sub = 0) => (c = 0 /\ ~stxt /\ ~assets2 /\ ~subcopy)
+       /\ subassets => sub = 1        \* `sub` holds a page directory called `assets`, like the directory the ROOT page may copy verbatim
+       /\ missfirst => rootcopy       \* the root's copy_subdir list names a missing directory before `assets`
        /\ (sub = 2) => (~assets2 /\ ~subcopy)         \* metadata lives in the index page
        /\ rootcopy => assets
        /\ subcopy => assets2
        /\ t' = [a |-> a, b |-> b, txt |-> txt, hid |-> hid, bak |-> bak, ord |-> ord, sub |-> sub, c |-> c, stxt |-> stxt,
-                assets |-> assets, rootcopy |-> rootcopy, assets2 |-> assets2, subcopy |-> subcopy]
+                assets |-> assets, rootcopy |-> rootcopy, assets2 |-> assets2, subcopy |-> subcopy, subassets |-> subassets, missfirst |-> missfirst]
   /\ phase' = "chosen" /\ UNCHANGED out
 
 (* ---- Ref ---------------------------------------------------------------------- *)
@@ -51,6 +56,7 @@ Merged == Ordered \o RestOf
 SubPagesOf(copySkip) ==     \* pages below `sub`, in order; copySkip = is assets2 skipped as a copied directory
   IF t.sub # 1 THEN <<>>
   ELSE <<"sub/index.html">>
+       \o (IF t.subassets THEN <<"sub/assets/index.html">> ELSE <<>>)     \* copy_subdir of the root page is local to the root directory
        \o (IF t.assets2 /\ ~copySkip THEN <<"sub/assets2/index.html">> ELSE <<>>)
        \o (IF t.c = 1 THEN <<"sub/c.html">> ELSE <<>>)
 PageOf(n, copySkip) == CASE n = "a.md" -> (IF t.a = 1 THEN <<"a.html">> ELSE <<>>)
@@ -62,6 +68,7 @@ Concat(names, i, copySkip) == IF i > Len(names) THEN <<>> ELSE PageOf(names[i], 
 
 RefPages == <<"index.html">> \o Concat(Merged, 1, t.subcopy)
 RefFiles == (IF t.txt THEN {"notes.txt"} ELSE {})
+            \cup (IF t.sub = 1 /\ t.subassets THEN {"sub/assets/pic.png"} ELSE {})
             \cup (IF t.sub = 1 /\ t.stxt THEN {"sub/d.txt"} ELSE {})
             \cup (IF t.rootcopy THEN {"assets/img.png", "assets/stray.md"} ELSE {})
             \cup (IF t.sub = 1 /\ t.subcopy THEN {"sub/assets2/img2.png", "sub/assets2/index.md"} ELSE {})
@@ -74,6 +81,7 @@ RefFiles == (IF t.txt THEN {"notes.txt"} ELSE {})
 ImplSkipAssets2 == IF "ParentCopySubdir" \in Dev THEN FALSE ELSE t.subcopy
 ImplPages == <<"index.html">> \o Concat(Merged, 1, ImplSkipAssets2)
 ImplFiles == (IF t.txt THEN {"notes.txt"} ELSE {})
+             \cup (IF t.sub = 1 /\ t.subassets THEN {"sub/assets/pic.png"} ELSE {})
              \cup (IF t.sub = 1 /\ t.stxt THEN {"sub/d.txt"} ELSE {})
              \cup (IF t.rootcopy THEN {"assets/img.png", "assets/stray.md"} ELSE {})
              \cup (IF t.sub = 1 /\ t.subcopy THEN {"sub/assets2/img2.png", "sub/assets2/index.md"} ELSE {})
